@@ -27,6 +27,25 @@ def generate(rng, tier):
         out.append((f"rth {hx(blk)} " + " ".join(qs), len(times) > 0))
         for t in eval_times(rng, times):
             out.append((f"rth {hx(blk)} e{t}", len(times) > 0))
+    # variable-length integers whose value does not fit 32 bits (a fifth byte of 0x10 or more): time difference, duration,
+    # pre-delay or post-delay of an entry; the scan must report the overflow when it reaches that entry (never a value
+    # reduced modulo 2^32), and the entries before it are still answered
+    for fifth in (0x10, 0x1f, 0x20, 0x2f, 0x40, 0x4f, 0x60, 0x6f, 0x70, 0x7f):
+        big = bytes([0xe4, 0x80, 0x80, 0x80, fifth])
+        head = bytes([1]) + u16(1) + i16(100) + i16(-200)
+        for where in ("time", "duration", "pre", "post"):
+            e1 = bytes([0x20]) + varint(10) + varint(0) + varint(5)                                 # go to point 0 at T=10, 5 s
+            if where == "time":
+                e2 = bytes([0x10]) + big
+            elif where == "duration":
+                e2 = bytes([0x20]) + varint(20) + varint(0) + big
+            elif where == "pre":
+                e2 = bytes([0x22]) + varint(20) + varint(0) + varint(7) + big
+            else:
+                e2 = bytes([0x21]) + varint(20) + varint(0) + varint(7) + big
+            e3 = bytes([0x10]) + varint(30)
+            blk = head + u16(3) + e1 + e2 + e3
+            out.append((f"rth {hx(blk)} m " + " ".join(f"e{f2b(float(t))}" for t in (0, 10, 11, 30, 31, 100, 1e6)), True))
     # the empty plan made by sb_rth_plan_init_empty (on an object that is not zero-filled)
     out.append(("rth - m p0 " + " ".join(f"e{t}" for t in eval_times(rng, [0, 1, 15, 1000])), True))
     # entry counts with bit 15 set (the count is an unsigned 16-bit field): long runs of 'same as previous'
